@@ -1345,12 +1345,23 @@ pub fn gen_c09_sid(seed: u64, _thorough: bool) -> Plan {
         config,
         knobs: KnobsPlan::simple(),
         flows: vec![],
-        extra: serde_json::json!({ "variant": (seed / 2) % 4, "gap_s": *g.pick(&[0u64, 1, 29, 31, 40, 65]), "sub_seed": g.next() }),
+        // (user B numbers its datagrams from a drawn start: just ahead of A's, beyond A's replay window, far beyond it)
+        extra: serde_json::json!({ "variant": (seed / 2) % 4, "gap_s": *g.pick(&[0u64, 1, 29, 31, 40, 65]), "sub_seed": g.next(), "pid_b0": *g.pick(&[1000u64, 1000, 9000, 20_000, 1 << 33, u64::MAX - 10_000]) }),
     }
+}
+
+/// C11, several users: the same histories, judged for the packet-id rule - a datagram of user B that carries A's session
+/// id is refused (it is not A's), and a refused datagram leaves A's window where it was: A's next ids, never seen before and
+/// not behind the highest id *accepted*, are all relayed, whatever packet id B's datagram carried.
+pub fn gen_c11_users(seed: u64, thorough: bool) -> Plan {
+    let mut p = gen_c09_sid(seed, thorough);
+    p.property = "C11".into();
+    p
 }
 
 pub fn execute_c09_sid(plan: &Plan) -> Outcome {
     let c = creds(&plan.config);
+    let prop = plan.property.clone();
     let cell = plan.config.family();
     let variant = plan.extra["variant"].as_u64().unwrap_or(0);
     let gap_s = plan.extra["gap_s"].as_u64().unwrap_or(31);
@@ -1378,7 +1389,7 @@ pub fn execute_c09_sid(plan: &Plan) -> Outcome {
         // the history: A's datagrams are what is judged; B's are the neighbour
         let mut sent_a: Vec<Vec<u8>> = Vec::new();
         let mut pid_a = 0u64;
-        let mut pid_b = 1000u64;
+        let mut pid_b = plan.extra["pid_b0"].as_u64().unwrap_or(1000);
         let mut steps: Vec<(&str, u64)> = match variant {
             0 => vec![("a", 0), ("b", 0), ("a", 0), ("b", 0), ("a", 0)],
             1 => vec![("a", 0), ("gap", gap_s), ("b", 0), ("a", 0), ("gap", gap_s), ("b", 0), ("b", 0), ("a", 0)],
@@ -1431,15 +1442,15 @@ pub fn execute_c09_sid(plan: &Plan) -> Outcome {
     let (startup, findings, n) = out.result.clone();
     let mut v = Vec::new();
     if let Some(e) = startup {
-        v.push(Violation::new("C09", format!("C09/shared-session-id-startup/{cell}"), e));
+        v.push(Violation::new(&prop, format!("{prop}/shared-session-id-startup/{cell}"), e));
     }
     for (oracle, detail) in &findings {
         if !v.iter().any(|x: &Violation| x.signature.contains(oracle.as_str())) {
-            v.push(Violation::new("C09", format!("C09/{oracle}/{cell}"), detail.clone()));
+            v.push(Violation::new(&prop, format!("{prop}/{oracle}/{cell}"), detail.clone()));
         }
     }
     for p in &out.panics {
-        v.push(Violation::new("C09", format!("C09/panic/{cell}/{}", p.frame), format!("panic in node {}: {} at {}", p.node, p.message, p.location)));
+        v.push(Violation::new(&prop, format!("{prop}/panic/{cell}/{}", p.frame), format!("panic in node {}: {} at {}", p.node, p.message, p.location)));
     }
     let mut probes = BTreeMap::new();
     probes.insert(format!("shared_session_id_variant_{variant}"), 1);
